@@ -17,7 +17,7 @@ generated call histories over it. (1) history independence: a sequence of ~40 ca
 recreated_zlib_chunks / decompress_deflate_stream(verify in {false,true}) / recompress_deflate_stream / compress_zstd / decompress_zstd, each result \
 digest compared with the first-seen result for that (function, input); (2) concurrency: 2..16 threads released by a \
 barrier run generated per-thread sequences over the shared (Arc) pool, every result compared with the sequential model; \
-(4) soak: one stream through decompress/recompress 70 000 times per worker process, every result equal to the first; (3) cross-process: a child process recomputes all digests of the pool (fresh address space, fresh RandomState) and must \
+(4) soak: three streams through recompress 70 000 times each (interleaved, plus decompress(verify=true) every 16th round) per worker process, every result equal to the first; (3) cross-process: a child process recomputes all digests of the pool (fresh address space, fresh RandomState) and must \
 agree. Non-trivial = a history in which an accepted input is evaluated at least twice with different predecessors or on \
 at least 2 threads; distinct = hash of (pool, history).",
     assumptions: &[
@@ -364,45 +364,63 @@ fn eval_dna(dna_bytes: &[u8], ctx: &mut Ctx) -> Result<(), (Failure, Value)> {
     r.map_err(|f| (f, doc))
 }
 
-/// soak: the same accepted stream through decompress(verify=true) / recompress tens of
-/// thousands of times in one process; every result must equal the first (state that builds up
-/// over many calls: pools, caches, counters that wrap)
-fn soak(ctx: &mut Ctx, calls: u64) {
-    let plain: Vec<u8> = (0..600u32).map(|i| b"the quick brown fox "[(i % 20) as usize] ^ ((i / 97) as u8 & 1)).collect();
-    let stream = crate::gen_comp::zlib_deflate_raw(&plain, &crate::gen_comp::ZCfg::simple(6)).unwrap();
-    let doc = json!({"kind":"c14-soak","hex":hex(&stream),"calls":calls});
+/// soak: three different accepted streams through recompress (every 16th round also through
+/// decompress(verify=true)) tens of thousands of times in one process, interleaved; every result
+/// must equal the first for that stream (state that builds up over many calls: pools, caches,
+/// counters that wrap)
+fn soak_streams() -> Vec<Vec<u8>> {
+    let mut v = vec![];
+    for (k, level) in [(0u32, 6), (1, 1), (2, 9)] {
+        let n = 500 + 300 * k;
+        let plain: Vec<u8> = (0..n)
+            .map(|i| b"the quick brown fox jumps over "[((i * (k + 1)) % 31) as usize] ^ ((i / (97 + k)) as u8 & 3))
+            .collect();
+        v.push(crate::gen_comp::zlib_deflate_raw(&plain, &crate::gen_comp::ZCfg::simple(level)).unwrap());
+    }
+    v
+}
+
+fn soak(ctx: &mut Ctx, rounds: u64) {
+    let doc = json!({"kind":"c14-soak","rounds":rounds});
     ctx.set_inflight(&doc);
-    if let Err(f) = soak_run(&stream, calls, ctx) {
+    if let Err(f) = soak_run(rounds, ctx) {
         if !ctx.is_known(&f) {
             ctx.record_failure(&f, &doc);
         }
     }
 }
 
-fn soak_run(stream: &[u8], calls: u64, ctx: &mut Ctx) -> Result<(), Failure> {
-    let first = match lib_split(stream, true) {
-        Ok(Ok(s)) => s,
-        _ => return Ok(()),
-    };
-    let d0 = digest_split(Ok(Ok(first.clone())));
-    let r0 = digest_bytes(lib_recompress(&first.plain, &first.corr));
-    let mut i = 0u64;
-    while i < calls {
-        let d = digest_split(lib_split(stream, true));
-        if d != d0 {
-            return Err(mismatch("history-dependence", (1, 0), &d0, &d, &format!("call number {} of a soak run", i)));
+fn soak_run(rounds: u64, ctx: &mut Ctx) -> Result<(), Failure> {
+    let streams = soak_streams();
+    let mut firsts = vec![];
+    for s in &streams {
+        match lib_split(s, true) {
+            Ok(Ok(sp)) => firsts.push(sp),
+            _ => return Ok(()),
         }
-        let r = digest_bytes(lib_recompress(&first.plain, &first.corr));
-        if r != r0 {
-            return Err(mismatch("history-dependence", (2, 0), &r0, &r, &format!("call number {} of a soak run", i)));
+    }
+    let d0: Vec<String> = firsts.iter().map(|f| digest_split(Ok(Ok(f.clone())))).collect();
+    let r0: Vec<String> = firsts.iter().map(|f| digest_bytes(lib_recompress(&f.plain, &f.corr))).collect();
+    for i in 0..rounds {
+        for (k, f) in firsts.iter().enumerate() {
+            let r = digest_bytes(lib_recompress(&f.plain, &f.corr));
+            if r != r0[k] {
+                return Err(mismatch("history-dependence", (2, k as u8), &r0[k], &r, &format!("round {} of a soak run", i)));
+            }
         }
-        i += 3; // decompress(verify=true) builds two predictors, recompress one
-        if i % 3000 == 0 {
-            ctx.set_inflight(&json!({"kind":"between"}));
+        if i % 16 == 0 {
+            let k = (i / 16) as usize % streams.len();
+            let d = digest_split(lib_split(&streams[k], true));
+            if d != d0[k] {
+                return Err(mismatch("history-dependence", (1, k as u8), &d0[k], &d, &format!("round {} of a soak run", i)));
+            }
+        }
+        if i % 2000 == 0 {
+            ctx.set_inflight(&json!({"kind":"c14-soak","rounds":rounds}));
         }
     }
     ctx.evals(1);
-    ctx.class_n("soak-calls", calls);
+    ctx.class_n("soak-rounds", rounds);
     Ok(())
 }
 
@@ -421,9 +439,8 @@ fn worker(ctx: &mut Ctx) {
 fn replay(doc: &Value, ctx: &mut Ctx) -> Result<(), Failure> {
     let bad = || Failure::new("C14", "harness", "bad-replay-doc", "replay document incomplete".into());
     if doc.get("kind").and_then(|k| k.as_str()) == Some("c14-soak") {
-        let stream = doc_bytes(doc, "hex").ok_or_else(bad)?;
-        let calls = doc.get("calls").and_then(|c| c.as_u64()).unwrap_or(70_000);
-        return soak_run(&stream, calls, ctx);
+        let rounds = doc.get("rounds").and_then(|c| c.as_u64()).unwrap_or(70_000);
+        return soak_run(rounds, ctx);
     }
     let pool = pool_from_doc(doc.get("pool").ok_or_else(bad)?).ok_or_else(bad)?;
     let ops = |k: &str| -> Vec<Op> {
